@@ -160,8 +160,13 @@ class Intern:
         return self.ids[s]
 
 
-def build(repo=None):
-    """-> (ctors, strings, meta); ctors: list of dicts with interned numbers + readable fields."""
+def build(repo=None, lenient=False):
+    """-> (ctors, strings, meta); ctors: list of dicts with interned numbers + readable fields.
+    lenient (used by the HARNESS world, never for the Lean table): where the library's registry disagrees with the independent
+    reading of the .tl text about a constructor's fields or their kinds, the GRAMMAR's view is taken and the disagreement is
+    recorded in meta['disagreements'] - the oracle then exercises that constructor and reports the concrete value on which the
+    library's wire image is wrong (instead of the translator merely refusing)."""
+    disagreements = []
     g = _lib()
     sdir = os.path.join(os.path.dirname(g.__file__), 'schemas')
     files = [f for f in os.listdir(sdir)]
@@ -192,19 +197,29 @@ def build(repo=None):
         # the registrator turns '{t:Type}' into a field '{t' of type 'Type}' – the only accepted difference
         code_cmp = [(f, t) for f, t in code_args if not f.startswith('{')]
         if code_cmp != d['args']:
-            raise Untranslatable(f'argument lists differ for {sc.name}: code {code_cmp} grammar {d["args"]}')
+            if not lenient:
+                raise Untranslatable(f'argument lists differ for {sc.name}: code {code_cmp} grammar {d["args"]}')
+            disagreements.append(f'argument lists differ for {sc.name}: code {code_cmp} grammar {d["args"]}')
+            code_args = list(d['args'])
         args = []
         for f, t in code_args:
             sview, dview, idx = code_views(schemas, t)
             if f.startswith('{'):
                 args.append(dict(field=f, type=t, cond=None, vec=False, ety=('unsup',)))
                 continue
-            if not agree(sview, dview):
-                raise Untranslatable(f'serialize and deserialize classify {sc.name}.{f}:{t} differently: {sview} vs {dview}')
             icond, ivec, iety = independent_type(t, names, classes)
+            if not agree(sview, dview):
+                if not lenient:
+                    raise Untranslatable(f'serialize and deserialize classify {sc.name}.{f}:{t} differently: {sview} vs {dview}')
+                disagreements.append(f'serialize and deserialize classify {sc.name}.{f}:{t} differently: {sview} vs {dview}')
+                args.append(dict(field=f, type=t, cond=icond, vec=ivec, ety=iety))
+                continue
             ety = sview[2]
             if (icond is not None) != sview[0] or ivec != sview[1] or iety != ety or (icond and icond[1] != idx):
-                raise Untranslatable(f'code and TL grammar classify {sc.name}.{f}:{t} differently: {sview}/{idx} vs {(icond, ivec, iety)}')
+                if not lenient:
+                    raise Untranslatable(f'code and TL grammar classify {sc.name}.{f}:{t} differently: {sview}/{idx} vs {(icond, ivec, iety)}')
+                disagreements.append(f'code and TL grammar classify {sc.name}.{f}:{t} differently: {sview}/{idx} vs {(icond, ivec, iety)}')
+                ety = iety
             args.append(dict(field=f, type=t, cond=icond, vec=ivec, ety=ety))
         fnames = [a['field'] for a in args]
         if len(set(fnames)) != len(fnames) or '@type' in fnames:
@@ -217,7 +232,7 @@ def build(repo=None):
         for a in c['args']:
             a['f'] = I(a['field'])
     untouch = sorted((I(n), I(f)) for n, fs in schemas.untouchables.items() for f in fs)
-    meta = dict(class_div=class_div, files=files, k_mode=k_mode, k_flags=k_flags, untouch=untouch, intern=I)
+    meta = dict(class_div=class_div, files=files, k_mode=k_mode, k_flags=k_flags, untouch=untouch, intern=I, disagreements=disagreements)
     return ctors, I, meta
 
 
